@@ -7,7 +7,7 @@ CONSTANTS
  SessT = 2
  RebT = 2
  DefT = 30
- KeepT = {FALSE}
+ KeepT = {TRUE}
  MaxClock = 1000
  MaxGen = 1000
  FixSubChange = TRUE
